@@ -81,6 +81,8 @@ def significantTab : Nat := 2^10 + 2^13 + 2^32
 structure ScanErr where
   pos : Pos
   msg : String
+  /-- not an error of the scanner: the model's loop bound was reached (proved impossible, Lemmas/ParseTerm.lean) -/
+  fuel : Bool := false
 deriving Repr
 
 structure Sc where
@@ -116,10 +118,10 @@ def Sc.next (s : Sc) : Except ScanErr (Int × Sc) :=
   | c :: rest =>
     if c.bad then
       let s' := { s with rest := rest, off := s.off + 1, lastCharLen := 1, col := s.col + 1 }
-      .error ⟨s'.pos, "invalid UTF-8 encoding"⟩
+      .error ⟨s'.pos, "invalid UTF-8 encoding", false⟩
     else
       let s' := { s with rest := rest, off := s.off + c.w, lastCharLen := c.w, col := s.col + 1 }
-      if c.r == 0 then .error ⟨s'.pos, "invalid character NUL"⟩
+      if c.r == 0 then .error ⟨s'.pos, "invalid character NUL", false⟩
       else if c.r == 10 then .ok (10, { s' with line := s'.line + 1, lastLineLen := s'.col, col := 0 })
       else .ok (c.r, s')
 
@@ -150,7 +152,7 @@ def isIdentRune (c : Int) (i : Nat) : Bool :=
 
 /-- skip white space starting with look-ahead `c` -/
 def skipWsLoop : Nat → Int → Sc → Except ScanErr (Int × Sc)
-  | 0, c, s => .ok (c, s)
+  | 0, _, s => .error ⟨s.pos, "out of fuel", true⟩
   | fuel+1, c, s =>
     if isWsCh s.ws c then do
       let (c', s') ← s.next
@@ -158,7 +160,7 @@ def skipWsLoop : Nat → Int → Sc → Except ScanErr (Int × Sc)
     else .ok (c, s)
 
 def identLoop : Nat → Nat → Int → Sc → Except ScanErr (Int × Sc)
-  | 0, _, c, s => .ok (c, s)
+  | 0, _, _, s => .error ⟨s.pos, "out of fuel", true⟩
   | fuel+1, i, c, s =>
     if isIdentRune c i then do
       let (c', s') ← s.next
@@ -167,7 +169,7 @@ def identLoop : Nat → Nat → Int → Sc → Except ScanErr (Int × Sc)
 
 /-- `digits`: returns (next char, digsep bits, first invalid digit or 0, scanner) -/
 def digitsLoop : Nat → Int → Nat → Nat → Int → Sc → Except ScanErr (Int × Nat × Int × Sc)
-  | 0, c, _, ds, inv, s => .ok (c, ds, inv, s)
+  | 0, _, _, _, _, s => .error ⟨s.pos, "out of fuel", true⟩
   | fuel+1, c, base, ds, inv, s =>
     if base ≤ 10 then
       if isDec c || c == 95 then do
@@ -210,7 +212,7 @@ def invalidSep (x : List UInt8) : Bool :=
   let (d, bad) := (x.drop start).foldl step init
   bad || d == 0
 
-def Sc.err (s : Sc) (msg : String) : Except ScanErr α := .error ⟨s.pos, msg⟩
+def Sc.err (s : Sc) (msg : String) : Except ScanErr α := .error ⟨s.pos, msg, false⟩
 
 def quoteRune (c : Int) : String := "'" ++ String.singleton (Char.ofNat c.toNat) ++ "'"
 
